@@ -18,10 +18,13 @@ import (
 	"fmt"
 	"io"
 	"math/rand"
+	"net"
 	"os"
 	"path/filepath"
 	"runtime"
+	"strings"
 	"sync"
+	"sync/atomic"
 	"time"
 
 	"github.com/gokrazy/rsync/internal/maincmd"
@@ -175,6 +178,11 @@ func runOverTransport(push bool, flags []string, src, dst string, c2s, s2c int, 
 		err := srv.HandleConnArgs(context.Background(), rsyncd.NewConnection(a, b, "trace"), nil, sargs)
 		b.Close()
 		if err != nil {
+			// an endpoint that gives up tears its connection down in both directions (a socket close, the
+			// deferred Close calls around io.Pipe in local copies): the peer's pending write fails
+			a.Close()
+		}
+		if err != nil {
 			done <- "server-err:" + err.Error()
 		} else {
 			done <- "server-ok"
@@ -188,6 +196,9 @@ func runOverTransport(push bool, flags []string, src, dst string, c2s, s2c int, 
 		}()
 		_, err := cl.Run(context.Background(), duplexRW{b, a}, cpaths)
 		a.Close()
+		if err != nil {
+			b.Close()
+		}
 		if err != nil {
 			done <- "client-err:" + err.Error()
 		} else {
@@ -236,7 +247,7 @@ func traceTree(h *H, kind string, dir string) sTree {
 		// matches, the sender's unmatched run is far longer than its 256 KiB read window
 		t["u1"] = sNode{kind: 'f', content: h.bytes(600*1024 + 11), perm: 0o644, mtime: T}
 		t["u2"] = sNode{kind: 'f', content: h.bytes(1500*1024 + 3), perm: 0o644, mtime: T}
-		t["u3"] = sNode{kind: 'f', content: h.bytes(300*1024), perm: 0o644, mtime: T}
+		t["u3"] = sNode{kind: 'f', content: h.bytes(300 * 1024), perm: 0o644, mtime: T}
 	case "mixed":
 		for i := 0; i < 60; i++ {
 			t[fmt.Sprintf("m%02d", i)] = sNode{kind: 'f', content: h.bytes(h.pick(0, 1, 699, 700, 701, 5000)), perm: 0o644, mtime: T}
@@ -355,6 +366,63 @@ func suiteTrace(h *H) {
 			}
 		}
 	}
+	// ---- a session that fails in the middle: the receiving side cannot create one of the files (its name
+	// leaves no room for a temporary name beside it) while the sending side is busy writing that file's
+	// data. The session must end (with an error) whatever the transport buffers — also over rendezvous
+	// pipes, which is how local copies run (clientmaincmd.go: io.Pipe between client and in-process server).
+	{
+		dir := filepath.Join(base, "failing")
+		src := filepath.Join(dir, "src")
+		os.MkdirAll(src, 0o755)
+		os.WriteFile(filepath.Join(src, "a"), h.bytes(2000), 0o644)
+		os.WriteFile(filepath.Join(src, strings.Repeat("L", 250)), h.bytes(300*1024), 0o644)
+		os.WriteFile(filepath.Join(src, "z"), h.bytes(3000), 0o644)
+		n := 0
+		judge := func(name, out string) {
+			v := ""
+			switch {
+			case strings.HasPrefix(out, "timeout"):
+				v = "FAIL[C18] a session whose receiving side fails in the middle of a file never ends: " + out
+			case out == "ok":
+				v = "FAIL[C01] a session in which a file could not be created reported success"
+			}
+			h.emit(fmt.Sprintf("!trace-fail seed=%d %s", h.seed, name), strings.SplitN(out, ":", 2)[0], v, true)
+			h.out.Flush()
+			h.stat("trace.failing-receiver")
+		}
+		for _, push := range []bool{true, false} {
+			for _, pr := range [][2]int{{0, 0}, {0, 64 * 1024}, {64 * 1024, 0}, {17, 17}, {-1, -1}} {
+				n++
+				dst := filepath.Join(dir, fmt.Sprintf("dst%d", n))
+				os.MkdirAll(dst, 0o755)
+				out := runOverTransport(push, []string{"-rt"}, src, dst, pr[0], pr[1], int64(h.seed)+int64(n), 20*time.Second)
+				if strings.HasPrefix(out, "timeout") {
+					out = runOverTransport(push, []string{"-rt"}, src, dst, pr[0], pr[1], int64(h.seed)+int64(n), 120*time.Second)
+				}
+				judge(fmt.Sprintf("push=%v c2s=%d s2c=%d", push, pr[0], pr[1]), out)
+			}
+		}
+		// the real local copy (CLI entry point; the server runs in-process behind io.Pipe)
+		dst := filepath.Join(dir, "dst-local")
+		os.MkdirAll(dst, 0o755)
+		done := make(chan string, 1)
+		go func() {
+			_, err := maincmd.Main(context.Background(), quietEnv(), []string{"rsync", "-rt", src + "/", dst + "/"}, nil)
+			if err != nil {
+				done <- "err:" + err.Error()
+			} else {
+				done <- "ok"
+			}
+		}()
+		out := ""
+		select {
+		case out = <-done:
+		case <-time.After(60 * time.Second):
+			out = "timeout after 1m0s (local copy: client and in-process server both blocked)"
+		}
+		judge("local-copy", out)
+		os.RemoveAll(dir)
+	}
 }
 
 func suiteConcurrent(h *H) {
@@ -384,6 +452,8 @@ func suiteConcurrent(h *H) {
 			served[fmt.Sprintf("s/f%02d", i)] = sNode{kind: 'f', content: h.bytes(h.pick(0, 10, 700, 9000, 200000)), perm: 0o644, mtime: 1400000000 + int64(i)}
 		}
 		served["s"] = sNode{kind: 'd', perm: 0o755, mtime: 1400000000}
+		// one large file (it sorts first): sessions that break off in the middle of it run next to the others
+		served["s/0big"] = sNode{kind: 'f', content: h.bytes(6 << 20), perm: 0o644, mtime: 1400000500}
 		served.write(modSrc)
 		// per-uploader source trees; uploaders k and k+n/2 share a target directory (identical content) when shared
 		d, err := startDaemon([]rsyncd.Module{{Name: "src", Path: modSrc}, {Name: "up", Path: modUp, Writable: true}})
@@ -421,6 +491,51 @@ func suiteConcurrent(h *H) {
 			ut.write(us)
 			jobs = append(jobs, job{fmt.Sprintf("up%d", k), []string{"rsync", "-rt", us + "/", d.url("up", target+"/")}, filepath.Join(modUp, target), ut})
 		}
+		// sessions that are broken off by their client in the middle of the large file (a dropped
+		// connection, ^C): they must not influence what the others get (C18: "each produce the result they
+		// would produce alone"). Raw daemon protocol: request file 1 ("0big") in full, read a little, hang up.
+		stopAbort := make(chan struct{})
+		var abortWg sync.WaitGroup
+		aborted := int32(0)
+		for a := 0; a < 3; a++ {
+			abortWg.Add(1)
+			go func(a int) {
+				defer abortWg.Done()
+				for it := 0; ; it++ {
+					select {
+					case <-stopAbort:
+						return
+					default:
+					}
+					c, err := net.DialTimeout("tcp", d.ln.Addr().String(), 2*time.Second)
+					if err != nil {
+						return
+					}
+					c.SetDeadline(time.Now().Add(5 * time.Second))
+					var req bytes.Buffer
+					req.WriteString("@RSYNCD: 27\nsrc\n--server\n--sender\n-rt\n.\nsrc/s/\n\n")
+					wI32(&req, 0) // empty filter list
+					wI32(&req, 1) // file index 1
+					for _, v := range []int32{0, 700, 2, 0} {
+						wI32(&req, v) // no basis: send the whole file
+					}
+					c.Write(req.Bytes())
+					// read until some of the file's data has arrived, then drop the connection
+					buf := make([]byte, 32*1024)
+					got := 0
+					for got < (96+32*a)*1024 {
+						n, err := c.Read(buf)
+						got += n
+						if err != nil {
+							break
+						}
+					}
+					c.Close()
+					atomic.AddInt32(&aborted, 1)
+					time.Sleep(time.Duration(1+it%3) * time.Millisecond)
+				}
+			}(a)
+		}
 		var wg sync.WaitGroup
 		outs := make([]string, len(jobs))
 		for i := range jobs {
@@ -450,6 +565,9 @@ func suiteConcurrent(h *H) {
 			}(i)
 		}
 		wg.Wait()
+		close(stopAbort)
+		abortWg.Wait()
+		h.stats["concurrent.aborted-sessions"] += int(atomic.LoadInt32(&aborted))
 		d.stop()
 		wantPull := sTree{}
 		for p, nd := range served {
